@@ -230,9 +230,9 @@ def step_event(t0, name, opt, rule, k, text="", own_tree=False, in_place=None):
     return ev, result_root
 
 
-def probe_event(t0, name, opt, rule, text=""):
+def probe_event(t0, name, opt, rule, text="", own_tree=False):
     objs = project.ObjTable()
-    tree = t0.clone()
+    tree = t0 if own_tree else t0.clone()     # own_tree: the caller's very tree, with whatever earlier searches left on its nodes
     nodes = inorder(tree)
     hb = project.snapshot(objs, [tree])
     exc = ""
@@ -407,8 +407,21 @@ def _events_for_text(job):
                             except BaseException:  # noqa
                                 pass
                     if rule.can_apply_to(nodes2[k]):
+                        if k % 2:
+                            # ... and searched (find_nodes stamps its in-order indices on these very nodes) before they are re-linked
+                            for _, _, r in persistent:
+                                try:
+                                    r.find_nodes(tree2)
+                                except BaseException:  # noqa
+                                    pass
                         root2 = rule.apply_to(nodes2[k]).result.get_root()
                         out.extend(reprobe_event(root2, persistent, text, "inplace:%s@%d" % (name, k)))
+                        if k % 2 and len(inorder(root2)) <= 40:
+                            # the search repeated on the re-linked tree itself (not on a copy): indices as the tree is NOW
+                            for nb, ob, rb in persistent:
+                                pe = probe_event(root2, nb, ob, rb, "%s  =[in place %s@%d]=>  %s" % (text, name, k, str(root2)), own_tree=True)
+                                pe["second"] = [text, name, k, "inplace"]
+                                out.append(pe)
                 except BaseException:  # noqa
                     pass
                 # ... and with each surviving ancestor as the LAST node every rule object was asked about
@@ -657,7 +670,8 @@ SHARED_ID_EQ_FORMS = [SHARE + t for t in ["(2y + z) + 2y = 10", "2y + (z + 2y) =
                                           "10 = (2y + z) + 2y", "y + 3 + y = y + 3", "3 + x + 3 = 3", "2x * 2x = 16", "x + 2 = 2 + x"]]
 # a nested sum whose inner first / last addend is a product, quotient or power that merely STARTS or ENDS with a like term (three levels,
 # mixed operators): nothing to factor between the outer term and that addend
-FORMS += ["(x * y) * (z + 2)", "(12 + r) * (s + t)", "(x * y) * (y + z)", "(2 + p) * (q + 3x)", "(z + 2) * (x * y)", "(x^2 * y) * (3 + z) + 1",
+FORMS += ["-(4x) + 2x", "7y + (-(3x^2) + x^2)", "-(4x) * x^2", "2x - -(3x)", "-(2x^2) * -(3x)",
+          "(x * y) * (z + 2)", "(12 + r) * (s + t)", "(x * y) * (y + z)", "(2 + p) * (q + 3x)", "(z + 2) * (x * y)", "(x^2 * y) * (3 + z) + 1",
           "x + (x * y + 3)", "x + (x / y + 3)", "2x + (x^2 * y + z)", "(3 + y * x) + x", "x + (2x * y + x)", "4p + (p * (q + 1) + 2)", "(z + y / x) + x",
           "x + ((x + 1) * y + 3)", "3x + (x^y + 2)", "x * (x + y * 3)", "2 + (2 * y + 3)"]
 
